@@ -5,6 +5,7 @@ import (
 	"fmt"
 	"sort"
 	"strings"
+	"sync"
 
 	"github.com/cockroachdb/pebble"
 	"github.com/cockroachdb/pebble/vfs"
@@ -46,6 +47,16 @@ func init() {
 		s.N = tgt
 		if tgt > cur {
 			g.fmvNow = tgt // later ops may use newly enabled features
+			if g.p.CrashGen != nil && drawInt(g, label+"fault", 0, 2) == 0 {
+				// fail the creation of one of the marker files of this ratchet
+				// (each version step moves the marker once), mostly the last one
+				s.Flag = true
+				steps := tgt - cur
+				s.ID2 = steps
+				if drawInt(g, label+"flast", 0, 2) == 0 {
+					s.ID2 = drawInt(g, label+"fk", 1, steps)
+				}
+			}
 		}
 		return true
 	}
@@ -54,6 +65,30 @@ func init() {
 		if drawInt(g, label+"restrict", 0, 2) == 0 {
 			a, b := g.span(label + "sp")
 			s.Spans = [][2]string{{a, b}}
+		}
+		if drawInt(g, label+"during", 0, 2) == 0 {
+			// commits performed while the Checkpoint call is in progress
+			s.N = drawInt(g, label+"at", 0, 6)
+			if g.enabled("ingest") && !(g.p.DurableIngest && g.unsyncd) && drawInt(g, label+"ding", 0, 1) == 0 {
+				s.Tables = g.tables(label + "dt")
+				if len(s.Tables) > 0 {
+					g.st = g.st.ApplyIngest(s.Tables, "", "")
+					for _, t := range s.Tables {
+						for _, o := range t {
+							g.sdNote(o)
+						}
+					}
+				}
+			}
+			n := drawInt(g, label+"dn", 1, 3)
+			for i := 0; i < n; i++ {
+				o := g.writeOp(fmt.Sprintf("%sdw%d", label, i), false)
+				s.Ops = append(s.Ops, o)
+				g.sdNote(o)
+			}
+			s.Sync = g.drawSync(label + "ds")
+			g.st = g.st.Apply(s.Ops)
+			g.memDirty = true
 		}
 		return true
 	}
@@ -205,7 +240,30 @@ func stepRatchet(r *Runner, s Step) error {
 		r.FMVPending = int(tgt)
 		r.vmu.Unlock()
 	}
+	faulted := false
+	if s.Flag && r.crash != nil && tgt > cur {
+		// one transient I/O error: the creation of the ID2-th format-version marker
+		// file written by this ratchet fails.
+		r.crash.armFault("marker", max(1, s.ID2))
+	}
 	err := r.DB.RatchetFormatMajorVersion(tgt)
+	if s.Flag && r.crash != nil && tgt > cur {
+		faulted = r.crash.disarmFault()
+	}
+	if faulted && err != nil {
+		// The documented outcome of a failed ratchet is an error; the version on
+		// disk is whatever step completed. Retry without faults: it must succeed
+		// and make the target durable.
+		r.C["ratchet-failed-by-injected-fault"]++
+		if now := r.DB.FormatMajorVersion(); now < cur {
+			return fmt.Errorf("failed ratchet lowered the version from %d to %d", cur, now)
+		}
+		err = r.DB.RatchetFormatMajorVersion(tgt)
+		if err != nil {
+			return fmt.Errorf("RatchetFormatMajorVersion(%d) retried after an injected marker-creation error: unexpected error: %v", tgt, err)
+		}
+		r.C["ratchet-retried-after-fault"]++
+	}
 	after := r.DB.FormatMajorVersion()
 	switch {
 	case tgt < cur:
@@ -263,14 +321,62 @@ func stepCheckpoint(r *Runner, s Step) error {
 	if len(spans) > 0 {
 		opts = append(opts, pebble.WithRestrictToSpans(spans))
 	}
-	lo, cands := r.Candidates()
-	if err := r.DB.Checkpoint(dir, opts...); err != nil {
+	lo, _ := r.Candidates()
+	vBefore := len(r.Versions) - 1
+	// Optionally commit (an ingestion, then a batch) from inside the Checkpoint
+	// call: at the N-th creation/link the checkpoint performs in its destination
+	// directory (all of them happen after Checkpoint has released the DB locks).
+	// The checkpoint must still be a consistent prefix: the state before, between
+	// or after these commits.
+	var nestedErr error
+	if len(s.Ops) > 0 || len(s.Tables) > 0 {
+		cnt, fired := 0, false
+		var mu sync.Mutex
+		r.fsHook = func(kind, path string) {
+			if !strings.HasPrefix(path, dir) {
+				return
+			}
+			mu.Lock()
+			cnt++
+			fire := !fired && cnt > s.N
+			if fire {
+				fired = true
+			}
+			mu.Unlock()
+			if !fire {
+				return
+			}
+			if len(s.Tables) > 0 {
+				if err := r.step(Step{K: "ingest", Tables: s.Tables}); err != nil {
+					nestedErr = fmt.Errorf("ingest during Checkpoint: %v", err)
+					return
+				}
+			}
+			if len(s.Ops) > 0 {
+				if err := r.step(Step{K: "write", Ops: s.Ops, Sync: s.Sync}); err != nil {
+					nestedErr = fmt.Errorf("commit during Checkpoint: %v", err)
+					return
+				}
+			}
+			r.C["checkpoints-with-commits-during"]++
+		}
+	}
+	err := r.DB.Checkpoint(dir, opts...)
+	r.fsHook = nil
+	if err != nil {
 		return fmt.Errorf("Checkpoint: unexpected error: %v", err)
 	}
-	if s.Flag && r.walOn() {
-		r.markDurable()
-		lo, cands = r.Candidates()
+	if nestedErr != nil {
+		return nestedErr
 	}
+	if s.Flag && r.walOn() && vBefore > lo {
+		// WithFlushedWAL: everything committed before the call is in the checkpoint.
+		lo = vBefore
+	}
+	if s.Flag && r.walOn() && len(s.Ops) == 0 && len(s.Tables) == 0 {
+		r.markDurable()
+	}
+	cands := r.candidatesFrom(lo)
 	// Open the checkpoint as its own DB (same FS).
 	lg := &recLogger{}
 	o := BuildOptions(r.Plan.Opt, r.FS, nil, lg)
